@@ -213,6 +213,11 @@ class ParseAPI(object):
         """
         blob = self._electrum_to_blob(s)
         if blob and len(blob) == 64:
+            # coordinates are field elements: refuse anything not below p (contains_point reduces modulo p,
+            # and the text of a key with such a coordinate does not parse back)
+            p = self._network.generator.p()
+            if from_bytes_32(blob[:32]) >= p or from_bytes_32(blob[32:]) >= p:
+                return None
             try:
                 return self._network.keys.electrum_public(master_public_key=blob)
             except ValueError:
